@@ -12,6 +12,11 @@ COMMON_NOTE = ("Trusted: Coq 8.16.1 kernel (vm_compute used, native_compute not 
                "runtime semantics are modelled as executable Gallina and validated by the correspondence, not verified.")
 
 CLAIMED = {
+    "C07": dict(
+        text="Coq theorems over configuration TREES (nested dict/list/scalars, any depth): Config's dispatch on 'contexts' / 'streams' / dict_depth >= 4 (keys and threshold re-read from the source) followed by ContextConfig parsing yields exactly the intended calls — one per configured (stream, module, test) with its parameters, window and region — for the contexts and streams layouts unconditionally, and for the bare stream / bare module layouts under the depth hypotheses the proofs force (shown to be exact, with Coq refutations = known findings F12a/F12b; bare-geometry regions F12c); unknown modules/tests inserted anywhere are skipped without affecting the rest; per-variable xarray attributes round-trip; carriers agree under the stated oracle hypothesis load(dump d)=d. Tied by running Config on generated configurations through 10 carriers x 4 layouts against the model and the intended calls. Partial: ruamel/json/xarray/importlib/shapely are oracles.",
+        design_ref="DESIGN.md §8 C07",
+        technique="Coq proof (nested-inductive config trees, layout theorems, filtering lemma) + translator + correspondence over carriers x layouts",
+    ),
     "C11": dict(
         text="Coq theorems (all lengths incl. short series, all missing patterns, every regular axis with a whole-second step D>=1, all durations>=0 and tolerances): the operational model of flat_line_test (median step, count=int(threshold)/step, strided windows, n_fill, SUSPECT/FAIL/MISSING order) equals the property's specification with k=floor(threshold/D); floor(floor(thr)/D)=floor(thr/D); window range over present values; short series never flagged. Tied by correspondence on exhaustive small series x duration x tolerance grids. Known finding F18: non-integer steps are floored (Coq refutation).",
         design_ref="DESIGN.md §8 C11",
